@@ -2589,3 +2589,85 @@ func mustTruncParam(c *Ctx, f *ssa.Function, idx int, memo map[string]int, depth
 	}
 	return ok
 }
+
+// ruleIntersectionArgOrder: sibling cross-check — the polygon clipper (executeInternal) and the line clipper
+// (executeInternalPath64) call getIntersection in the same pattern: first from the current vertex back to the previous
+// one, then (the pass-through re-intersection) from the previous vertex forward. The direction decides which edge
+// of the rectangle is tried first; a call with the points exchanged finds the far crossing or none.
+func ruleIntersectionArgOrder(rule string) func(*Ctx) {
+	return func(c *Ctx) {
+		pattern := func(fn string) ([]string, *ssa.Function) {
+			f := c.fn(fn)
+			var pat []string
+			for _, g := range freshRegion(c, f) {
+				var pathP *ssa.Parameter
+				for _, p := range g.Params {
+					if typeName(p.Type()) == "Path64" {
+						pathP = p
+					}
+				}
+				for _, ci := range calls(g) {
+					if !strings.HasSuffix(calleeName(c, ci), "getIntersection") {
+						continue
+					}
+					role := func(v ssa.Value) string {
+						if _, isPhi := v.(*ssa.Phi); isPhi {
+							return "prev"
+						}
+						if pathP != nil {
+							if _, ok := loadsOfParam(v, pathP, map[ssa.Value]bool{}); ok {
+								return "curr"
+							}
+						}
+						return "?"
+					}
+					var pts []string
+					var idxs []ssa.Value
+					for _, a := range ci.Common().Args {
+						if typeName(a.Type()) == "Point64" {
+							pts = append(pts, role(a))
+							var ix ssa.Value
+							if pathP != nil {
+								if is, ok := loadsOfParam(a, pathP, map[ssa.Value]bool{}); ok && len(is) == 1 {
+									ix = is[0]
+								}
+							}
+							idxs = append(idxs, ix)
+						}
+					}
+					// both ends read from the path (prevPt := path[i-1]): the one at the higher index is the current vertex
+					if len(pts) == 2 && idxs[0] != nil && idxs[1] != nil {
+						oneBelow := func(lo, hi ssa.Value) bool { // lo == hi - 1
+							if isPlusOne(hi, lo) {
+								return true
+							}
+							bo, ok := lo.(*ssa.BinOp)
+							return ok && bo.Op == token.SUB && isConstInt(bo.Y, 1) && sameIntValue(bo.X, hi)
+						}
+						switch {
+						case oneBelow(idxs[1], idxs[0]):
+							pts = []string{"curr", "prev"}
+						case oneBelow(idxs[0], idxs[1]):
+							pts = []string{"prev", "curr"}
+						default:
+							pts = []string{"?", "?"}
+						}
+					}
+					pat = append(pat, "("+strings.Join(pts, ",")+")")
+				}
+			}
+			return pat, f
+		}
+		a, fa := pattern("(RectClip64).executeInternal")
+		b, _ := pattern("(RectClip64).executeInternalPath64")
+		bad := ""
+		if len(a) == 0 || len(b) == 0 {
+			bad = "getIntersection calls not found in one of the two clippers"
+		} else if strings.Join(a, " ") != strings.Join(b, " ") {
+			bad = fmt.Sprintf("the polygon clipper calls getIntersection with %s, the line clipper with %s: the two walk the path the same way and must hand the segment over in the same direction", strings.Join(a, " "), strings.Join(b, " "))
+		}
+		c.check(bad == "", rule, rule+":getIntersection:argument-order", fa.Pos(), "(RectClip64).executeInternal",
+			"both clippers call getIntersection as "+strings.Join(a, " "), bad,
+			"getIntersection tries the rectangle's edges in an order that depends on which end of the segment is given first; with the ends exchanged a segment entering next to a corner is reported at the wrong crossing or dropped")
+	}
+}
